@@ -58,8 +58,12 @@ Proof. unfold wf, upd; cbn; intros total f s Hf (A & B & C & D). rewrite Hf. aut
 Lemma wf_set_big : forall total b s, wf total s -> wf total (set_big b s).
 Proof. unfold wf, set_big; cbn; auto. Qed.
 
-(* stats of leaf-level steps: only pos, coords and slots move *)
+(* stats of sequence-level steps: only pos and coords move *)
 Definition flat (t t' : stats) (c : Z) : Prop :=
+  pos t <= pos t' /\ 0 <= coords t' - coords t /\ 16 * (coords t' - coords t) <= c /\
+  slots t' = slots t /\ nodes t' = nodes t /\ dmax t' = dmax t /\ quad t' = quad t.
+(* ... and of readPolygon: slots as well *)
+Definition pflat (t t' : stats) (c : Z) : Prop :=
   pos t <= pos t' /\ 0 <= coords t' - coords t /\ 16 * (coords t' - coords t) <= c /\
   0 <= slots t' - slots t /\ 4 * (slots t' - slots t) <= c /\
   nodes t' = nodes t /\ dmax t' = dmax t /\ quad t' = quad t.
@@ -69,25 +73,36 @@ Lemma flat_trans : forall t t1 t2 c1 c2, flat t t1 c1 -> flat t1 t2 c2 -> flat t
 Proof. unfold flat; intros; lia. Qed.
 Lemma flat_weaken : forall t t' c c', flat t t' c -> c <= c' -> flat t t' c'.
 Proof. unfold flat; intros; lia. Qed.
+Lemma flat_pflat : forall t t' c, flat t t' c -> 0 <= c -> pflat t t' c.
+Proof. unfold flat, pflat; intros; lia. Qed.
+
+(* errors of the sequence-level functions are ordinary exceptions: never an out-of-bounds read, never undefined behaviour *)
+Definition err_ok (e : error) : bool := match e with EOob | EUB => false | _ => true end.
+(* errors of readGeometry: EUB only without the compound-curve guard *)
+Definition gerr (c : cfg) (e : error) : Prop := e <> EOob /\ (cc_guard c = true -> e <> EUB).
+Lemma err_ok_gerr : forall c e, err_ok e = true -> gerr c e.
+Proof. intros c [] H; try discriminate; split; try discriminate; intros; discriminate. Qed.
 
 (* a step specification: Ok consumes exactly what pos says and at least kmin; Err stays inside the input and is not EOob *)
-Definition step_ok {A} (total : Z) (s : rd) (kmin : Z) (r : res A) : Prop :=
+Definition step_okR {A} (R : stats -> stats -> Z -> Prop) (total : Z) (s : rd) (kmin : Z) (r : res A) : Prop :=
   match r with
-  | Ok _ s' => wf total s' /\ big s' = big s /\ kmin <= pos (stt s') - pos (stt s) /\ flat (stt s) (stt s') (pos (stt s') - pos (stt s))
-  | Err e t => e <> EOob /\ flat (stt s) t (rem s) /\ pos t <= total
+  | Ok _ s' => wf total s' /\ kmin <= pos (stt s') - pos (stt s) /\ R (stt s) (stt s') (pos (stt s') - pos (stt s))
+  | Err e t => err_ok e = true /\ R (stt s) t (rem s) /\ pos t <= total
   | Fuel => False
   end.
+Notation step_ok := (step_okR flat).
+Notation step_okp := (step_okR pflat).
 
 Lemma read_byte_ok : forall total s, wf total s -> step_ok total s 1 (read_byte s) /\
   (forall b s', read_byte s = Ok b s' -> pos (stt s') = pos (stt s) + 1 /\ is_byte b).
 Proof.
   intros total s (A & B & C & D). unfold read_byte.
   destruct (Z.ltb_spec (rem s) 1) as [L|L].
-  - split; [|discriminate]. unfold step_ok. split; [discriminate|]. split; [apply flat_refl; lia|lia].
+  - split; [|discriminate]. unfold step_okR. split; [reflexivity|]. split; [apply flat_refl; lia|lia].
   - destruct (rest s) as [|b l] eqn:E; cbn [length] in A; [lia|].
     inversion D; subst.
     split.
-    + unfold step_ok, wf, flat; proj. repeat split; auto; try lia.
+    + unfold step_okR, wf, flat; proj. repeat split; auto; try lia.
     + intros b0 s' H. inversion H; subst. proj. auto.
 Qed.
 Lemma read_u32_ok : forall total s, wf total s -> step_ok total s 4 (read_u32 s) /\
@@ -95,12 +110,12 @@ Lemma read_u32_ok : forall total s, wf total s -> step_ok total s 4 (read_u32 s)
 Proof.
   intros total s (A & B & C & D). unfold read_u32.
   destruct (Z.ltb_spec (rem s) 4) as [L|L].
-  - split; [|discriminate]. unfold step_ok. split; [discriminate|]. split; [apply flat_refl; lia|lia].
+  - split; [|discriminate]. unfold step_okR. split; [reflexivity|]. split; [apply flat_refl; lia|lia].
   - destruct (rest s) as [|b0 [|b1 [|b2 [|b3 l]]]] eqn:E; cbn [length] in A; try lia.
     assert (D' := D). inversion D as [|? ? P0 D0]; subst. inversion D0 as [|? ? P1 D1]; subst.
     inversion D1 as [|? ? P2 D2]; subst. inversion D2 as [|? ? P3 D3]; subst.
     split.
-    + unfold step_ok, wf, flat; proj. repeat split; auto; try lia.
+    + unfold step_okR, wf, flat; proj. repeat split; auto; try lia.
     + intros v s' H. inversion H; subst. proj. split; [lia|]. split; [|lia].
       apply word_nonneg. unfold is_byte in *. repeat constructor; lia.
 Qed.
@@ -116,15 +131,15 @@ Proof.
   intros total scan n hz hm s W Hn. assert (W' := W). destruct W as (A & B & C & D).
   unfold read_seq, min_mem. change (mm_mult 1) with 16.
   destruct (Z.ltb_spec (rem s) (n * 16)) as [L|L]; cbn [negb].
-  { split; [|discriminate]. unfold step_ok. split; [discriminate|]. split; [apply flat_refl; lia|lia]. }
+  { split; [|discriminate]. unfold step_okR. split; [reflexivity|]. split; [apply flat_refl; lia|lia]. }
   destruct (Z.eqb_spec n 0) as [N0|N0].
   { subst n. split.
-    - unfold step_ok. split; [apply wf_upd; auto|]. unfold flat; proj. repeat split; auto; lia.
+    - unfold step_okR. split; [apply wf_upd; auto|]. unfold flat; proj. repeat split; auto; lia.
     - intros q s' H. inversion H; subst. unfold seq_empty; proj. repeat split; lia. }
   pose proof (dim_bounds hz hm) as DB. set (dm := dim_of hz hm) in *.
   cbn [rem upd rest big stt].
   destruct (Z.ltb_spec (rem s) (n * (8 * dm))) as [L2|L2].
-  { split; [|discriminate]. unfold step_ok. split; [discriminate|]. split; [|proj; lia].
+  { split; [|discriminate]. unfold step_okR. split; [reflexivity|]. split; [|proj; lia].
     unfold flat; proj. repeat split; auto; lia. }
   assert (Hlen : 8 * dm <= Z.of_nat (length (rest s))) by nia.
   destruct (peek_f64_some (big s) (rest s)) as (fx & Efx); [lia|]. rewrite Efx.
@@ -136,9 +151,9 @@ Proof.
   destruct (peek_f64_some (big s) (skipz l1 8)) as (ly & Ely); [rewrite skipz_length; nia|]. rewrite Ely.
   destruct (skipz_nonempty l1 (8 * dm - 1)) as (x & l2 & E2 & L2' & B2); [nia|]. rewrite E2.
   split.
-  - unfold step_ok, wf; proj. split.
+  - unfold step_okR, wf; proj. split.
     + repeat split; try nia. apply B2. unfold l1. apply skipz_bytes; auto.
-    + split; auto. split; [nia|]. unfold flat; proj. repeat split; auto; try nia.
+    + split; [nia|]. unfold flat; proj. repeat split; auto; try nia.
   - intros q s' H. inversion H; subst. proj. repeat split; lia.
 Qed.
 
@@ -152,19 +167,19 @@ Lemma step_seq : forall {A B} total s k1 k2 (r : res A) (f : A -> rd -> res B),
   step_ok total s (k1 + k2) (match r with Ok a s1 => f a s1 | Err e t => Err e t | Fuel => Fuel end).
 Proof.
   intros A B total s k1 k2 r f W H1 H2. destruct r as [a s1|e t|]; cbn in H1; auto.
-  destruct H1 as (W1 & B1 & K1 & F1). specialize (H2 a s1 eq_refl W1).
+  destruct H1 as (W1 & K1 & F1). specialize (H2 a s1 eq_refl W1).
   destruct (wf_rem _ _ W) as (R0 & _). destruct (wf_rem _ _ W1) as (R1 & _).
   destruct (f a s1) as [b s2|e t|]; cbn in *; auto.
-  - destruct H2 as (W2 & B2 & K2 & F2). split; auto. split; [congruence|]. split; [lia|].
+  - destruct H2 as (W2 & K2 & F2). split; auto. split; [lia|].
     eapply flat_weaken; [eapply flat_trans; eauto|lia].
   - destruct H2 as (NE & F2 & P2). split; auto. split; auto.
     eapply flat_weaken; [eapply flat_trans; eauto|lia].
 Qed.
 
 Lemma step_weaken : forall {A} total s k k' (r : res A), step_ok total s k r -> k' <= k -> step_ok total s k' r.
-Proof. intros A total s k k' r H L. destruct r; cbn in *; auto. destruct H as (W & B & K & F). repeat split; auto; lia. Qed.
+Proof. intros A total s k k' r H L. destruct r; cbn in *; auto. destruct H as (W & K & F). split; auto. split; [lia|auto]. Qed.
 
-Lemma step_err : forall {A} total s k e, wf total s -> e <> EOob -> @step_ok A total s k (Err e (stt s)).
+Lemma step_err : forall {A} total s k e, wf total s -> err_ok e = true -> @step_okR A flat total s k (Err e (stt s)).
 Proof. intros A total s k e W NE. destruct (wf_rem _ _ W). cbn. split; auto. split; [apply flat_refl; lia|]. destruct W as (?&?&?&?). lia. Qed.
 
 (* ------------------------------------------------------------------ leaves *)
@@ -175,20 +190,589 @@ Proof.
   replace 4 with (4 + 0) by lia. apply step_seq; auto.
   intros n s1 E W1. destruct (V1 _ _ E) as (_ & Hn & _).
   destruct (negb (min_mem tid n s1)).
-  - apply step_err; auto. discriminate.
+  - apply step_err; auto.
   - eapply step_weaken. apply (read_seq_ok total (tid =? 8) n hz hm s1 W1 Hn). lia.
 Qed.
 
 Lemma step_map : forall {A B} total s k (r : res A) (f : A -> rd -> res B),
-  step_ok total s k r ->
+  wf total s -> step_ok total s k r ->
   (forall a s1, r = Ok a s1 -> f a s1 = Err ECtor (stt s1) \/ exists b, f a s1 = Ok b s1) ->
   step_ok total s k (match r with Ok a s1 => f a s1 | Err e t => Err e t | Fuel => Fuel end).
 Proof.
-  intros A B total s k r f H Hf. destruct r as [a s1|e t|]; cbn in H; auto.
-  destruct H as (W1 & B1 & K1 & F1). destruct (wf_rem _ _ W1) as (R1 & R1').
+  intros A B total s k r f W H Hf. destruct r as [a s1|e t|]; cbn in H; auto.
+  destruct H as (W1 & K1 & F1). destruct (wf_rem _ _ W1) as (R1 & R1'). destruct (wf_rem _ _ W) as (R0 & R0').
   destruct (Hf a s1 eq_refl) as [E|(b & E)]; rewrite E; cbn.
-  - split; [discriminate|]. split.
-    + eapply flat_weaken; eauto. destruct W1 as (?&?&?&?). unfold flat in F1. lia.
-    + destruct W1 as (?&?&?&?). lia.
+  - split; [reflexivity|]. split.
+    + eapply flat_weaken; eauto. lia.
+    + lia.
   - auto.
+Qed.
+
+Lemma read_point_ok : forall total hz hm s, wf total s -> step_ok total s 16 (read_point hz hm s).
+Proof.
+  intros total hz hm s W. unfold read_point.
+  destruct (read_seq_ok total false 1 hz hm s W) as (S1 & _); [lia|].
+  destruct (read_seq false 1 hz hm s) as [q s'|e t|]; auto.
+  destruct (d_isnan (cfx q) && d_isnan (cfy q)); exact S1.
+Qed.
+Lemma read_line_ok : forall total hz hm s, wf total s -> step_ok total s 4 (read_line hz hm s).
+Proof.
+  intros total hz hm s W. unfold read_line. apply step_map; auto. apply read_counted_seq_ok; auto.
+  intros q s1 _. destruct (line_ok q); eauto.
+Qed.
+Lemma read_circ_ok : forall total hz hm s, wf total s -> step_ok total s 4 (read_circ hz hm s).
+Proof.
+  intros total hz hm s W. unfold read_circ. apply step_map; auto. apply read_counted_seq_ok; auto.
+  intros q s1 _. destruct (circ_ok q); eauto.
+Qed.
+Lemma read_ring_ok : forall total hz hm s, wf total s -> step_ok total s 4 (read_ring hz hm s).
+Proof.
+  intros total hz hm s W. unfold read_ring. apply step_map; auto. apply read_counted_seq_ok; auto.
+  intros q s1 _. destruct (ring_ok q); eauto.
+Qed.
+
+(* Fuel only when the fuel does not exceed the remaining length *)
+Definition step_or_fuel {A} (R : stats -> stats -> Z -> Prop) (total : Z) (s : rd) (k : Z) (fuel : nat) (r : res A) : Prop :=
+  match r with Fuel => (fuel <= length (rest s))%nat | _ => step_okR R total s k r end.
+
+(* the holes of a polygon: n rings, at least 4 bytes each *)
+Lemma read_rings_ok : forall fuel total n hz hm s, wf total s ->
+  step_or_fuel flat total s (4 * Z.max 0 n) fuel (read_rings fuel n hz hm s).
+Proof.
+  induction fuel as [|f IH]; intros total n hz hm s W.
+  - cbn [read_rings]. destruct (Z.leb_spec n 0) as [N|N]; cbn; [|lia].
+    replace (Z.max 0 n) with 0 by lia. split; auto. split; [lia|]. apply flat_refl. lia.
+  - cbn [read_rings]. destruct (Z.leb_spec n 0) as [N|N].
+    + replace (Z.max 0 n) with 0 by lia. cbn. split; auto. split; [lia|]. apply flat_refl. lia.
+    + pose proof (read_ring_ok total hz hm s W) as R.
+      destruct (read_ring hz hm s) as [q s1|e t|] eqn:E; [| |contradiction].
+      2:{ cbn in *. exact R. }
+      assert (R' := R). destruct R' as (W1 & K & _).
+      specialize (IH total (n - 1) hz hm s1 W1).
+      destruct (read_rings f (n - 1) hz hm s1) as [l s2|e t|] eqn:E2.
+      * unfold step_or_fuel in *. replace (4 * Z.max 0 n) with (4 + 4 * Z.max 0 (n - 1)) by lia.
+        pose proof (step_seq total s 4 (4 * Z.max 0 (n - 1)) (Ok q s1) (fun q s1 => match read_rings f (n - 1) hz hm s1 with Ok l s2 => Ok (q :: l) s2 | Err e t => Err e t | Fuel => Fuel end) W R) as X.
+        cbn beta iota in X. rewrite E2 in X. apply X. intros a s1' Ea W1'. inversion Ea; subst. rewrite E2. exact IH.
+      * unfold step_or_fuel in *.
+        pose proof (step_seq total s 4 (4 * Z.max 0 (n - 1)) (Ok q s1) (fun q s1 => match read_rings f (n - 1) hz hm s1 with Ok l s2 => Ok (q :: l) s2 | Err e t => Err e t | Fuel => Fuel end) W R) as X.
+        cbn beta iota in X. rewrite E2 in X. eapply step_weaken. apply X. intros a s1' Ea W1'. inversion Ea; subst. rewrite E2. exact IH. lia.
+      * cbn in *. destruct W as (A & B & _). destruct W1 as (A1 & B1 & _). lia.
+Qed.
+
+Lemma step_ok_p : forall {A} total s k (r : res A), wf total s -> step_ok total s k r -> step_okp total s k r.
+Proof.
+  intros A total s k r W H. destruct (wf_rem _ _ W). destruct r as [a s'|e t|]; cbn in *; auto.
+  - destruct H as (W' & K & F). split; [auto|]. split; [auto|]. apply flat_pflat; auto. unfold flat in F. lia.
+  - destruct H as (NE & F & P). split; [auto|]. split; [|auto]. apply flat_pflat; auto.
+Qed.
+
+Lemma poly_check_err : forall l e, poly_check l = Some e -> err_ok e = true.
+Proof. intros [|sh holes] e; cbn; [discriminate|]. destruct (_ && _); intro H; inversion H; reflexivity. Qed.
+
+Lemma read_polygon_ok : forall fuel total hz hm s, wf total s ->
+  step_or_fuel pflat total s 4 fuel (read_polygon fuel hz hm s).
+Proof.
+  intros fuel total hz hm s W. unfold read_polygon.
+  destruct (read_u32_ok total s W) as (S1 & V1).
+  destruct (wf_rem _ _ W) as (R0 & R0').
+  destruct (read_u32 s) as [n s1|e t|] eqn:E1; [|apply (@step_ok_p geom total s 4 (Err e t)); auto|contradiction].
+  destruct S1 as (W1 & K1 & F1). destruct (V1 _ _ eq_refl) as (P1 & Hn & Rm1).
+  destruct (wf_rem _ _ W1) as (R1 & R1').
+  unfold min_mem. change (mm_mult 3) with 4.
+  destruct (Z.ltb_spec (rem s1) (n * 4)) as [L|L]; cbn [negb].
+  { cbn. split; [reflexivity|]. split; [|lia]. apply flat_pflat; [|lia]. eapply flat_weaken; eauto. lia. }
+  destruct (Z.eqb_spec n 0) as [N0|N0].
+  { cbn. split; auto. split; [lia|]. apply flat_pflat; [auto|lia]. }
+  pose proof (read_ring_ok total hz hm s1 W1) as S2.
+  destruct (read_ring hz hm s1) as [sh s2|e t|]; [| |contradiction].
+  2:{ destruct S2 as (NE & F2 & P2). cbn. split; auto. split; [|auto].
+      apply flat_pflat; [|lia]. eapply flat_weaken; [eapply flat_trans; eauto|lia]. }
+  destruct S2 as (W2 & K2 & F2). destruct (wf_rem _ _ W2) as (R2 & R2').
+  set (s3 := if 1 <? n then upd (add_slots (n - 1)) s2 else s2).
+  assert (W3 : wf total s3). { unfold s3. destruct (1 <? n); auto. }
+  assert (E3 : rest s3 = rest s2 /\ rem s3 = rem s2 /\ big s3 = big s2 /\ pos (stt s3) = pos (stt s2) /\ coords (stt s3) = coords (stt s2)
+               /\ slots (stt s3) = slots (stt s2) + (n - 1) /\ nodes (stt s3) = nodes (stt s2) /\ dmax (stt s3) = dmax (stt s2) /\ quad (stt s3) = quad (stt s2)).
+  { unfold s3. destruct (Z.ltb_spec 1 n); proj; repeat split; auto; lia. }
+  destruct E3 as (Er & Erm & Eb & Ep & Ec & Es & En & Ed & Eq).
+  pose proof (read_rings_ok fuel total (n - 1) hz hm s3 W3) as S4.
+  destruct (read_rings fuel (n - 1) hz hm s3) as [holes s4|e t|].
+  3:{ cbn in *. rewrite Er in S4. destruct W as (A & _). destruct W2 as (A2 & _). lia. }
+  2:{ destruct S4 as (NE & F4 & P4). cbn. split; auto. split; [|auto].
+      unfold flat, pflat in *. lia. }
+  destruct S4 as (W4 & K4 & F4).
+  destruct (poly_check (sh :: holes)) eqn:PC.
+  - destruct (wf_rem _ _ W4). cbn. split; [eapply poly_check_err; eauto|]. split; [|lia]. unfold flat, pflat in *. lia.
+  - cbn. split; auto. split; [lia|]. unfold flat, pflat in *. lia.
+Qed.
+
+(* ------------------------------------------------------------------ header *)
+Lemma step_ret : forall {A} (R : stats -> stats -> Z -> Prop) total s (a : A), (forall t, R t t 0) -> wf total s -> step_okR R total s 0 (Ok a s).
+Proof. intros. cbn. split; auto. split; [lia|]. replace (pos (stt s) - pos (stt s)) with 0 by lia. auto. Qed.
+Lemma step_ext : forall {A} (R : stats -> stats -> Z -> Prop) total s s' k (r : res A), stt s = stt s' -> rem s = rem s' -> step_okR R total s k r -> step_okR R total s' k r.
+Proof. intros A R total s s' k r E1 E2 H. destruct r; cbn in *; rewrite <- ?E1, <- ?E2; auto. Qed.
+
+Lemma read_header_ok : forall total s, wf total s -> step_ok total s 5 (read_header s).
+Proof.
+  intros total s W. unfold read_header.
+  destruct (read_byte_ok total s W) as (S1 & _).
+  replace 5 with (1 + 4) by lia. apply step_seq; auto.
+  intros bo s1 E1 W1.
+  set (s1' := if bo =? 1 then set_big false s1 else if bo =? 0 then set_big true s1 else s1).
+  assert (X : stt s1 = stt s1' /\ rem s1 = rem s1' /\ wf total s1').
+  { unfold s1'. destruct (bo =? 1); [|destruct (bo =? 0)]; (split; [reflexivity|split; [reflexivity|]]); auto using wf_set_big. }
+  destruct X as (X1 & X2 & W1').
+  apply (step_ext _ _ s1' s1); auto.
+  destruct (read_u32_ok total s1' W1') as (S2 & _).
+  replace 4 with (4 + 0) by lia. apply step_seq; auto.
+  intros ty s2 E2 W2.
+  destruct (negb (Z.land ty 536870912 =? 0)).
+  - destruct (read_u32_ok total s2 W2) as (S3 & _).
+    apply step_weaken with (k := 4 + 0); [|lia]. apply step_seq; auto.
+    intros v s3 E3 W3. apply step_ret; auto. intro t. apply flat_refl. lia.
+  - apply step_ret; auto. intro t. apply flat_refl. lia.
+Qed.
+
+Lemma read_byte_coords : forall s v s', read_byte s = Ok v s' -> coords (stt s') = coords (stt s).
+Proof. intros s v s'. unfold read_byte. destruct (rem s <? 1); [discriminate|]. destruct (rest s); [discriminate|]. intro H; inversion H; reflexivity. Qed.
+Lemma read_u32_coords : forall s v s', read_u32 s = Ok v s' -> coords (stt s') = coords (stt s).
+Proof.
+  intros s v s'. unfold read_u32. destruct (rem s <? 4); [discriminate|].
+  destruct (rest s) as [|? [|? [|? [|? ?]]]]; try discriminate. intro H; inversion H; reflexivity.
+Qed.
+Lemma read_header_coords : forall s h s', read_header s = Ok h s' -> coords (stt s') = coords (stt s).
+Proof.
+  intros s h s'. unfold read_header.
+  destruct (read_byte s) as [bo s1|?|] eqn:E1; try discriminate.
+  apply read_byte_coords in E1.
+  set (s1' := if bo =? 1 then set_big false s1 else if bo =? 0 then set_big true s1 else s1).
+  assert (X : stt s1' = stt s1) by (unfold s1'; destruct (bo =? 1); [|destruct (bo =? 0)]; reflexivity).
+  destruct (read_u32 s1') as [ty s2|?|] eqn:E2; try discriminate.
+  apply read_u32_coords in E2. rewrite X in E2.
+  destruct (negb _).
+  - destruct (read_u32 s2) as [v s3|?|] eqn:E3; try discriminate. apply read_u32_coords in E3.
+    intro H; inversion H; subst. congruence.
+  - intro H; inversion H; subst. congruence.
+Qed.
+
+(* ------------------------------------------------------------------ relative accounting of readGeometry frames *)
+(* t -> t' while the frames being counted sit at depth dd (and below); c = bytes consumed (Ok) or bytes that remained (Err) *)
+Definition acct (t t' : stats) (c dd : Z) : Prop :=
+  pos t <= pos t' /\
+  0 <= coords t' - coords t /\ 16 * (coords t' - coords t) <= c /\
+  0 <= slots t' - slots t /\ 4 * (slots t' - slots t) <= c * (dmax t' - dd + 1) /\
+  0 <= nodes t' - nodes t /\ 5 * (nodes t' - nodes t) <= c /\
+  0 <= quad t' - quad t /\ quad t' - quad t <= 2 * (nodes t' - nodes t) * (dmax t' - dd + 1) /\
+  dmax t <= dmax t' /\ (dmax t' <= Z.max (dmax t) dd \/ 9 * (dmax t' - dd) <= c).
+
+Definition geom_post (c : cfg) (total : Z) (fuel : nat) (d : Z) (s : rd) (r : res (geom * Z)) : Prop :=
+  match r with
+  | Ok (g, z) s' => wf total s' /\ 5 <= pos (stt s') - pos (stt s) /\ acct (stt s) (stt s') (pos (stt s') - pos (stt s)) d
+                    /\ 1 <= z <= nodes (stt s') - nodes (stt s) /\ d <= dmax (stt s')
+  | Err e t => gerr c e /\ acct (stt s) t (rem s) d /\ pos t <= total /\ d <= dmax t
+  | Fuel => (fuel <= length (rest s))%nat
+  end.
+Definition children_post (c : cfg) (total : Z) (fuel : nat) (d n : Z) (s : rd) (r : res (list geom * Z)) : Prop :=
+  match r with
+  | Ok (l, zs) s' => wf total s' /\ 5 * Z.max 0 n <= pos (stt s') - pos (stt s) /\ acct (stt s) (stt s') (pos (stt s') - pos (stt s)) (d + 1)
+                     /\ 0 <= zs <= nodes (stt s') - nodes (stt s)
+  | Err e t => gerr c e /\ acct (stt s) t (rem s) (d + 1) /\ pos t <= total
+  | Fuel => (fuel <= S (length (rest s)))%nat
+  end.
+
+Lemma ctor_check_err : forall c k l e, ctor_check c k l = Some e -> gerr c e.
+Proof.
+  intros c k l e. unfold ctor_check. destruct (k =? 9).
+  - unfold compound_check. destruct l as [|g t]; [discriminate|].
+    destruct (curve_seq g) as [q|]; [|intro H; inversion H; apply err_ok_gerr; reflexivity].
+    revert q. induction t as [|g' t IH]; intros q; cbn [compound_scan]; [discriminate|].
+    destruct (curve_seq g') as [q'|]; [|intro H; inversion H; apply err_ok_gerr; reflexivity].
+    destruct (_ || _).
+    { destruct (cc_guard c) eqn:G; intro H; inversion H; [apply err_ok_gerr; reflexivity|].
+      split; [discriminate|]. intro; congruence. }
+    destruct (_ && _); [apply IH|intro H; inversion H; apply err_ok_gerr; reflexivity].
+  - destruct (k =? 10); [|discriminate]. unfold surface_check. destruct l; [discriminate|].
+    destruct (_ && _); intro H; inversion H; apply err_ok_gerr; reflexivity.
+Qed.
+
+Lemma mm_mult_container : forall k, is_container k = true -> 4 <= mm_mult (mm_tid k).
+Proof.
+  intros k H. unfold is_container, is_coll in H. unfold mm_tid.
+  repeat match goal with |- context [?a =? ?b] => destruct (Z.eqb_spec a b); [subst; cbn; lia|] end.
+  cbn in H. repeat match goal with H : context [?a =? ?b] |- _ => destruct (Z.eqb_spec a b); [lia|] end. discriminate.
+Qed.
+
+(* the leaf kinds and the polygon: header, node, a flat step, two setSRID visits *)
+Lemma leaf_case : forall c total fuel d s se s1 (r : res geom) c0,
+  wf total s -> stt se = enter d (stt s) -> rem se = rem s -> wf total s1 ->
+  c0 = pos (stt s1) - pos (stt se) -> 5 <= c0 -> flat (stt se) (stt s1) c0 ->
+  step_or_fuel pflat total (upd add_node s1) 4 fuel r ->
+  (fuel <= length (rest s1) -> S fuel <= length (rest s))%nat ->
+  geom_post c total (S fuel) d s
+    (match r with Ok g s' => Ok (g, 1) (upd (add_quad 2) s') | Err e t => Err e t | Fuel => Fuel end).
+Proof.
+  intros c total fuel d s se s1 r c0 W Ee Er W1 Ec0 H5 F0 Hr Hfuel.
+  destruct (wf_rem _ _ W) as (R0 & R0'). destruct (wf_rem _ _ W1) as (R1 & R1').
+  unfold flat in F0. rewrite Ee in *. proj.
+  destruct r as [g s2|e t|]; cbn in Hr.
+  - destruct Hr as (W2 & K2 & F2). unfold pflat in F2. proj. cbn. proj.
+    split. { apply wf_upd; auto. }
+    split; [lia|]. split; [|split; lia].
+    unfold acct; proj. repeat split; try lia; try nia.
+  - destruct Hr as (NE & F2 & P2). unfold pflat in F2. proj. cbn.
+    split; [apply err_ok_gerr; auto|]. split; [|split; lia].
+    unfold acct; proj. repeat split; try lia; try nia.
+  - cbn. proj. auto.
+Qed.
+
+Lemma acct_trans : forall t t1 t2 c1 c2 dd, acct t t1 c1 dd -> acct t1 t2 c2 dd -> 0 <= c1 -> 0 <= c2 -> dd - 1 <= dmax t ->
+  acct t t2 (c1 + c2) dd.
+Proof.
+  unfold acct. intros t t1 t2 c1 c2 dd (A1 & A2 & A3 & A4 & A5 & A6 & A7 & A8 & A9 & A10 & A11)
+    (B1 & B2 & B3 & B4 & B5 & B6 & B7 & B8 & B9 & B10 & B11) C1 C2 D.
+  repeat split; try lia.
+  - assert (c1 * (dmax t1 - dd + 1) <= c1 * (dmax t2 - dd + 1)) by (apply Z.mul_le_mono_nonneg_l; lia). nia.
+  - assert (2 * (nodes t1 - nodes t) * (dmax t1 - dd + 1) <= 2 * (nodes t1 - nodes t) * (dmax t2 - dd + 1)) by (apply Z.mul_le_mono_nonneg_l; lia). nia.
+Qed.
+Lemma acct_weaken : forall t t' c c' dd, acct t t' c dd -> c <= c' -> dd - 1 <= dmax t' -> acct t t' c' dd.
+Proof.
+  unfold acct. intros t t' c c' dd (A1 & A2 & A3 & A4 & A5 & A6 & A7 & A8 & A9 & A10 & A11) L D.
+  repeat split; try lia. assert (c * (dmax t' - dd + 1) <= c' * (dmax t' - dd + 1)) by (apply Z.mul_le_mono_nonneg_r; lia). lia.
+Qed.
+Lemma acct_refl : forall t c dd, 0 <= c -> dd - 1 <= dmax t -> acct t t c dd.
+Proof. unfold acct. intros. repeat split; try lia; try nia. Qed.
+
+(* a container frame at depth d: header + count + node (t0 -> t2, c02 bytes), children at depth d+1 (t2 -> t3, then after
+   the vector of k slots t4 -> t5), q setSRID visits at the end *)
+Lemma container_ok : forall t0 t2 t3 t5 d c02 c1 c2 k q,
+  pos t2 = pos t0 + c02 -> 9 <= c02 -> coords t2 = coords t0 -> slots t2 = slots t0 -> nodes t2 = nodes t0 + 1 ->
+  dmax t2 = Z.max (dmax t0) d -> quad t2 = quad t0 ->
+  acct t2 t3 c1 (d + 1) -> 0 <= c1 -> 0 <= k -> 4 * k <= c2 ->
+  acct (add_slots k t3) t5 c2 (d + 1) -> 0 <= c2 ->
+  0 <= q <= 2 * (1 + (nodes t3 - nodes t2) + (nodes t5 - nodes t3)) ->
+  acct t0 (add_quad q t5) (c02 + c1 + c2) d.
+Proof.
+  unfold acct. intros t0 t2 t3 t5 d c02 c1 c2 k q P2 C02 Co2 S2 N2 D2 Q2
+    (A1 & A2 & A3 & A4 & A5 & A6 & A7 & A8 & A9 & A10 & A11) C1 K0 K4
+    (B1 & B2 & B3 & B4 & B5 & B6 & B7 & B8 & B9 & B10 & B11) C2 Hq.
+  proj.
+  assert (H0 : 0 <= dmax t3 - d) by lia.
+  assert (H1 : dmax t3 - d <= dmax t5 - d) by lia.
+  assert (M1 : c1 * (dmax t3 - (d + 1) + 1) <= c1 * (dmax t5 - d)) by (apply Z.mul_le_mono_nonneg_l; lia).
+  assert (M2 : 2 * (nodes t3 - nodes t2) * (dmax t3 - (d + 1) + 1) <= 2 * (nodes t3 - nodes t2) * (dmax t5 - d)) by (apply Z.mul_le_mono_nonneg_l; lia).
+  replace (dmax t5 - (d + 1) + 1) with (dmax t5 - d) in * by lia.
+  repeat split; try lia; nia.
+Qed.
+
+(* the same frame when a child (or the check after the loop) fails: R2 bytes remained after the count *)
+Lemma container_err : forall t0 t2 t3 t d c02 c1 k R2,
+  pos t2 = pos t0 + c02 -> 9 <= c02 -> coords t2 = coords t0 -> slots t2 = slots t0 -> nodes t2 = nodes t0 + 1 ->
+  dmax t2 = Z.max (dmax t0) d -> quad t2 = quad t0 ->
+  acct t2 t3 c1 (d + 1) -> 0 <= c1 -> c1 <= R2 -> 0 <= k -> 4 * k <= R2 ->
+  acct (add_slots k t3) t (R2 - c1) (d + 1) ->
+  acct t0 t (c02 + R2) d.
+Proof.
+  unfold acct. intros t0 t2 t3 t d c02 c1 k R2 P2 C02 Co2 S2 N2 D2 Q2
+    (A1 & A2 & A3 & A4 & A5 & A6 & A7 & A8 & A9 & A10 & A11) C1 C1R K0 K4
+    (B1 & B2 & B3 & B4 & B5 & B6 & B7 & B8 & B9 & B10 & B11).
+  proj.
+  assert (H0 : 0 <= dmax t3 - d) by lia.
+  assert (M1 : c1 * (dmax t3 - (d + 1) + 1) <= c1 * (dmax t - d)) by (apply Z.mul_le_mono_nonneg_l; lia).
+  assert (M2 : 2 * (nodes t3 - nodes t2) * (dmax t3 - (d + 1) + 1) <= 2 * (nodes t3 - nodes t2) * (dmax t - d)) by (apply Z.mul_le_mono_nonneg_l; lia).
+  replace (dmax t - (d + 1) + 1) with (dmax t - d) in * by lia.
+  repeat split; try lia; nia.
+Qed.
+
+Lemma main_spec : forall c fuel total,
+  (forall d s, wf total s -> geom_post c total fuel d s (read_geom c fuel d s)) /\
+  (forall d k n s, wf total s -> d <= dmax (stt s) -> children_post c total fuel d n s (read_children c fuel d k n s)).
+Proof.
+  intros c fuel. induction fuel as [|f IH]; intros total.
+  { split.
+    - intros d s W. cbn. lia.
+    - intros d k n s W Hd. cbn [read_children]. destruct (Z.leb_spec n 0); cbn; [|lia].
+      replace (Z.max 0 n) with 0 by lia. split; auto. split; [lia|]. split; [|lia].
+      unfold acct. repeat split; try lia. }
+  destruct (IH total) as (IHg & IHc). split.
+  - (* readGeometry *)
+    intros d s W. cbn [read_geom].
+    destruct (wf_rem _ _ W) as (R0 & R0').
+    set (se := upd (enter d) s).
+    assert (We : wf total se) by (apply wf_upd; auto).
+    assert (Ee : stt se = enter d (stt s)) by reflexivity.
+    assert (Ere : rem se = rem s) by reflexivity.
+    destruct (too_deep c d).
+    { cbn. split; [apply err_ok_gerr; reflexivity|]. split; [|proj; split; lia].
+      unfold acct; proj. repeat split; try lia; try nia. }
+    pose proof (read_header_ok total se We) as SH.
+    destruct (read_header se) as [h s1|e t|] eqn:EH; [| |contradiction].
+    2:{ destruct SH as (NE & F & P). unfold flat in F. rewrite Ee in F. proj. cbn. split; [apply err_ok_gerr; auto|]. split; [|split; lia].
+        unfold acct. repeat split; try lia; try nia. }
+    destruct SH as (W1 & K1 & F1).
+    assert (W1n : wf total (upd add_node s1)) by (apply wf_upd; auto).
+    assert (Hfu : forall s2, (length (rest s2) <= length (rest s1) -> f <= length (rest s2) -> S f <= length (rest s))%nat).
+    { intros s2 L1 L2. destruct W as (A & B & _). destruct W1 as (A1 & B1 & _).
+      change (pos (stt se)) with (pos (stt s)) in K1. lia. }
+    assert (LEAF : forall r, step_ok total (upd add_node s1) 4 r ->
+              geom_post c total (S f) d s (match r with Ok g s' => Ok (g, 1) (upd (add_quad 2) s') | Err e t => Err e t | Fuel => Fuel end)).
+    { intros r X. apply (leaf_case c total f d s se s1 r (pos (stt s1) - pos (stt se))); auto.
+      - apply step_ok_p in X; auto. destruct r; cbn in *; auto. contradiction.
+      - intro L. apply (Hfu s1); auto. }
+    destruct (h_type h =? 1).
+    { apply LEAF. eapply step_weaken; [apply read_point_ok; auto|lia]. }
+    destruct (h_type h =? 2).
+    { apply LEAF. apply read_line_ok; auto. }
+    destruct (h_type h =? 8).
+    { apply LEAF. apply read_circ_ok; auto. }
+    destruct (h_type h =? 3).
+    { apply (leaf_case c total f d s se s1 _ (pos (stt s1) - pos (stt se))); auto.
+      - apply read_polygon_ok; auto.
+      - intro L. apply (Hfu s1); auto. }
+    (* containers *)
+    change (pos (stt se)) with (pos (stt s)) in *.
+    assert (F1' : coords (stt s1) = coords (stt s) /\ slots (stt s1) = slots (stt s) /\ nodes (stt s1) = nodes (stt s) /\
+                  dmax (stt s1) = Z.max (dmax (stt s)) d /\ quad (stt s1) = quad (stt s) /\ pos (stt s) <= pos (stt s1)).
+    { apply read_header_coords in EH. change (coords (stt se)) with (coords (stt s)) in EH. unfold flat in F1. rewrite Ee in F1. proj. lia. }
+    destruct F1' as (Fc & Fs & Fn & Fd & Fq & Fp).
+    destruct (wf_rem _ _ W1) as (R1 & R1').
+    destruct (is_container (h_type h)) eqn:IC.
+    2:{ unfold geom_post. proj. split; [apply err_ok_gerr; reflexivity|]. split; [|lia].
+        unfold acct; proj. repeat split; try lia; try nia. }
+    destruct (read_u32_ok total _ W1n) as (S2 & V2).
+    destruct (read_u32 (upd add_node s1)) as [n s2|e t|] eqn:E2; [| |contradiction].
+    2:{ destruct S2 as (NE & F2 & P2). unfold flat in F2. proj. unfold geom_post. split; [apply err_ok_gerr; auto|]. split; [|lia].
+        unfold acct; proj. repeat split; try lia; try nia. }
+    destruct S2 as (W2 & K2 & F2). destruct (V2 _ _ eq_refl) as (P2 & Hn & Rm2). proj.
+    unfold flat in F2. proj. destruct (wf_rem _ _ W2) as (R2 & R2').
+    pose proof (mm_mult_container _ IC) as MM.
+    unfold min_mem. destruct (Z.ltb_spec (rem s2) (n * mm_mult (mm_tid (h_type h)))) as [L|L]; cbn [negb].
+    { unfold geom_post. split; [apply err_ok_gerr; reflexivity|]. split; [|lia].
+      unfold acct; proj. repeat split; try lia; try nia. }
+    assert (N4 : 4 * n <= rem s2) by nia.
+    (* the header frame: t0 = stt s, t2 = stt s2 *)
+    assert (T2 : pos (stt s2) = pos (stt s) + (pos (stt s2) - pos (stt s)) /\ 9 <= pos (stt s2) - pos (stt s) /\
+                 coords (stt s2) = coords (stt s) /\ slots (stt s2) = slots (stt s) /\ nodes (stt s2) = nodes (stt s) + 1 /\
+                 dmax (stt s2) = Z.max (dmax (stt s)) d /\ quad (stt s2) = quad (stt s)) by lia.
+    destruct T2 as (T2a & T2b & T2c & T2d & T2e & T2f & T2g).
+    destruct ((h_type h =? 10) && (n =? 0)).
+    { unfold geom_post. proj. split; [apply wf_upd; auto|]. split; [lia|]. split; [|lia].
+      unfold acct; proj. repeat split; try lia; try nia. }
+    set (pre := if (h_type h =? 10) && (1 <=? n) then 1 else 0).
+    assert (Hpre : 0 <= pre <= 1 /\ pre <= n).
+    { unfold pre. destruct (h_type h =? 10); cbn [andb]; [|lia]. destruct (Z.leb_spec 1 n); lia. }
+    pose proof (IHc d (h_type h) pre s2 W2 ltac:(lia)) as C1.
+    destruct (read_children c f d (h_type h) pre s2) as [[l1 z1] s3|e t|].
+    3:{ unfold children_post, geom_post in *. destruct W as (A & B & _). destruct W2 as (A2 & B2 & _). lia. }
+    2:{ unfold children_post, geom_post in *. destruct C1 as (NE & A1 & P1). split; auto. split; [|unfold acct in A1; lia].
+        replace (rem s) with ((pos (stt s2) - pos (stt s)) + rem s2) by lia.
+        apply (container_err (stt s) (stt s2) (stt s2) t d _ 0 0 (rem s2)); auto; try lia.
+        - apply acct_refl; lia.
+        - replace (rem s2 - 0) with (rem s2) by lia.
+          replace (add_slots 0 (stt s2)) with (stt s2); auto. destruct (stt s2); unfold add_slots; proj; f_equal; lia. }
+    unfold children_post in C1. destruct C1 as (W3 & K3 & A3 & Z3).
+    destruct (wf_rem _ _ W3) as (R3 & R3').
+    set (s4 := upd (add_slots (n - pre)) s3).
+    assert (W4 : wf total s4) by (apply wf_upd; auto).
+    assert (D3 : dmax (stt s2) <= dmax (stt s3)) by (unfold acct in A3; lia).
+    pose proof (IHc d (h_type h) (n - pre) s4 W4) as C2. specialize (C2 ltac:(unfold s4; proj; lia)).
+    destruct (read_children c f d (h_type h) (n - pre) s4) as [[l2 z2] s5|e t|].
+    3:{ unfold children_post, geom_post in *. change (rest s4) with (rest s3) in C2.
+        destruct W as (A & B & _). destruct W3 as (A3' & B3' & _). lia. }
+    2:{ unfold children_post, geom_post in *. destruct C2 as (NE & A4 & P4). change (rem s4) with (rem s3) in A4. change (stt s4) with (add_slots (n - pre) (stt s3)) in A4.
+        split; auto. split; [|unfold acct in A4; proj; lia].
+        replace (rem s) with ((pos (stt s2) - pos (stt s)) + rem s2) by lia.
+        apply (container_err (stt s) (stt s2) (stt s3) t d _ (pos (stt s3) - pos (stt s2)) (n - pre) (rem s2)); auto; try lia.
+        replace (rem s2 - (pos (stt s3) - pos (stt s2))) with (rem s3) by lia. exact A4. }
+    unfold children_post in C2. destruct C2 as (W5 & K5 & A5 & Z5).
+    change (stt s4) with (add_slots (n - pre) (stt s3)) in *. proj.
+    destruct (wf_rem _ _ W5) as (R5 & R5').
+    assert (CC : forall q, 0 <= q <= 2 * (1 + (nodes (stt s3) - nodes (stt s2)) + (nodes (stt s5) - nodes (stt s3))) ->
+                 acct (stt s) (add_quad q (stt s5)) (pos (stt s5) - pos (stt s)) d).
+    { intros q Hq.
+      replace (pos (stt s5) - pos (stt s)) with ((pos (stt s2) - pos (stt s)) + (pos (stt s3) - pos (stt s2)) + (pos (stt s5) - pos (stt s3))) by lia.
+      apply (container_ok (stt s) (stt s2) (stt s3) (stt s5) d _ _ _ (n - pre) q); auto; try lia. }
+    destruct (ctor_check c (h_type h) (l1 ++ l2)) eqn:CK.
+    { unfold geom_post. split; [eapply ctor_check_err; eauto|]. split; [|unfold acct in A5; proj; lia].
+      specialize (CC 0 ltac:(unfold acct in A3, A5; proj; lia)).
+      replace (add_quad 0 (stt s5)) with (stt s5) in CC by (destruct (stt s5); unfold add_quad; proj; f_equal; lia).
+      eapply acct_weaken; eauto; unfold acct in A5; proj; lia. }
+    unfold geom_post. set (csz := if is_coll (h_type h) then 1 + z1 + z2 else 1).
+    assert (Hc : 1 <= csz <= 1 + z1 + z2) by (unfold csz; destruct (is_coll _); lia).
+    split; [apply wf_upd; auto|]. proj.
+    split; [lia|]. split; [apply CC; unfold acct in A3, A5; proj; lia|].
+    unfold acct in A3, A5; proj. lia.
+  - (* the child loop *)
+    intros d k n s W Hd. cbn [read_children].
+    destruct (wf_rem _ _ W) as (R0 & R0').
+    destruct (Z.leb_spec n 0) as [N|N].
+    { unfold children_post. replace (Z.max 0 n) with 0 by lia. split; auto. split; [lia|]. split; [|lia].
+      replace (pos (stt s) - pos (stt s)) with 0 by lia. apply acct_refl; lia. }
+    pose proof (IHg (d + 1) s W) as G.
+    destruct (read_geom c f (d + 1) s) as [[g z] s1|e t|].
+    3:{ unfold geom_post, children_post in *. lia. }
+    2:{ unfold geom_post, children_post in *. destruct G as (NE & A & P & _). auto. }
+    unfold geom_post in G. destruct G as (W1 & K1 & A1 & Z1 & D1).
+    destruct (wf_rem _ _ W1) as (R1 & R1').
+    assert (Dm : dmax (stt s) <= dmax (stt s1)) by (unfold acct in A1; lia).
+    destruct (negb (fits k g)).
+    { unfold children_post. split; [apply err_ok_gerr; reflexivity|]. split; [|lia]. eapply acct_weaken; eauto; lia. }
+    pose proof (IHc d k (n - 1) s1 W1) as C. specialize (C ltac:(lia)).
+    destruct (read_children c f d k (n - 1) s1) as [[l zs] s2|e t|].
+    + unfold children_post in *. destruct C as (W2 & K2 & A2 & Z2).
+      split; auto. split; [lia|]. split; [|unfold acct in *; lia].
+      replace (pos (stt s2) - pos (stt s)) with ((pos (stt s1) - pos (stt s)) + (pos (stt s2) - pos (stt s1))) by lia.
+      apply acct_trans with (t1 := stt s1); auto; try lia.
+    + unfold children_post in *. destruct C as (NE & A2 & P2). split; auto. split; auto.
+      replace (rem s) with ((pos (stt s1) - pos (stt s)) + rem s1) by lia.
+      apply acct_trans with (t1 := stt s1); auto; lia.
+    + unfold children_post in *. destruct W as (A & B & _). destruct W1 as (A1' & B1' & _). lia.
+Qed.
+(* ------------------------------------------------------------------ the nesting limit of the candidate fix bounds the depth *)
+Lemma final_ok : forall {A} (a : A) s t, final_stats (Ok a s) = Some t -> t = stt s.
+Proof. intros A a s t H. inversion H. reflexivity. Qed.
+
+Lemma dlim_spec : forall c m, max_depth c = Some m -> 0 <= m -> forall fuel total,
+  (forall d s t, wf total s -> d <= m + 1 -> dmax (stt s) <= m + 1 ->
+     final_stats (read_geom c fuel d s) = Some t -> dmax t <= m + 1) /\
+  (forall d k n s t, wf total s -> d <= m -> dmax (stt s) <= m + 1 ->
+     final_stats (read_children c fuel d k n s) = Some t -> dmax t <= m + 1).
+Proof.
+  intros c m Hm M0 fuel. induction fuel as [|f IH]; intros total.
+  { split.
+    - intros d s t W D1 D2 H. cbn in H. discriminate.
+    - intros d k n s t W D1 D2 H. cbn [read_children] in H. destruct (n <=? 0); cbn in H; [|discriminate]. inversion H; subst. auto. }
+  destruct (IH total) as (IHg & IHc). split.
+  - intros d s t W D1 D2. cbn [read_geom].
+    set (se := upd (enter d) s).
+    assert (We : wf total se) by (apply wf_upd; auto).
+    assert (De : dmax (stt se) <= m + 1) by (unfold se; proj; lia).
+    unfold too_deep. rewrite Hm.
+    destruct (Z.ltb_spec m d) as [TD|TD].
+    { cbn. intro H; inversion H; subst. auto. }
+    pose proof (read_header_ok total se We) as SH.
+    destruct (read_header se) as [h s1|e t1|]; [| |contradiction].
+    2:{ destruct SH as (_ & F & _). unfold flat in F. cbn. intro H; inversion H; subst. lia. }
+    destruct SH as (W1 & _ & F1). assert (D1' : dmax (stt s1) <= m + 1) by (unfold flat in F1; lia).
+    assert (W1n : wf total (upd add_node s1)) by (apply wf_upd; auto).
+    assert (LEAF : forall (r : res geom) k, step_okp total (upd add_node s1) k r ->
+              final_stats (match r with Ok g s' => Ok (g, 1) (upd (add_quad 2) s') | Err e t => Err e t | Fuel => Fuel end) = Some t -> dmax t <= m + 1).
+    { intros r k X. destruct r as [g s2|e t2|]; cbn in X; [| |contradiction].
+      - destruct X as (_ & _ & F). unfold pflat in F. proj. cbn. intro H; inversion H; subst. proj. lia.
+      - destruct X as (_ & F & _). unfold pflat in F. proj. cbn. intro H; inversion H; subst. lia. }
+    destruct (h_type h =? 1). { apply (LEAF _ 16). apply step_ok_p; auto. apply read_point_ok; auto. }
+    destruct (h_type h =? 2). { apply (LEAF _ 4). apply step_ok_p; auto. apply read_line_ok; auto. }
+    destruct (h_type h =? 8). { apply (LEAF _ 4). apply step_ok_p; auto. apply read_circ_ok; auto. }
+    destruct (h_type h =? 3).
+    { pose proof (read_polygon_ok f total (h_z h) (h_m h) _ W1n) as X.
+      destruct (read_polygon f (h_z h) (h_m h) (upd add_node s1)) as [g s2|e t2|] eqn:EP; [| |cbn; discriminate].
+      - apply (LEAF (Ok g s2) 4). exact X.
+      - apply (LEAF (Err e t2) 4). exact X. }
+    destruct (is_container (h_type h)); [|cbn; intro H; inversion H; subst; proj; lia].
+    destruct (read_u32_ok total _ W1n) as (S2 & _).
+    destruct (read_u32 (upd add_node s1)) as [n s2|e t2|]; [| |contradiction].
+    2:{ destruct S2 as (_ & F & _). unfold flat in F. proj. cbn. intro H; inversion H; subst. lia. }
+    destruct S2 as (W2 & _ & F2). unfold flat in F2. proj.
+    destruct (negb (min_mem (mm_tid (h_type h)) n s2)). { cbn. intro H; inversion H; subst. lia. }
+    destruct ((h_type h =? 10) && (n =? 0)). { cbn. intro H; inversion H; subst. proj. lia. }
+    set (pre := if (h_type h =? 10) && (1 <=? n) then 1 else 0).
+    pose proof (IHc d (h_type h) pre s2) as C1.
+    assert (Dge : d <= dmax (stt s2)). { unfold flat in F1. change (dmax (stt se)) with (Z.max (dmax (stt s)) d) in F1. lia. }
+    destruct (read_children c f d (h_type h) pre s2) as [[l1 z1] s3|e t3|] eqn:E1; [| |cbn; discriminate].
+    2:{ intro H. apply (C1 t); auto; try lia. }
+    assert (D3 : dmax (stt s3) <= m + 1). { apply (C1 (stt s3)); auto; try lia. }
+    pose proof (proj2 (main_spec c f total) d (h_type h) pre s2 W2 Dge) as P1. rewrite E1 in P1. destruct P1 as (W3 & _).
+    set (s4 := upd (add_slots (n - pre)) s3).
+    assert (W4 : wf total s4) by (apply wf_upd; auto).
+    pose proof (IHc d (h_type h) (n - pre) s4) as C2.
+    destruct (read_children c f d (h_type h) (n - pre) s4) as [[l2 z2] s5|e t5|] eqn:E2; [| |cbn; discriminate].
+    2:{ intro H. apply (C2 t); auto; try lia. }
+    assert (D5 : dmax (stt s5) <= m + 1). { apply (C2 (stt s5)); auto; try lia. }
+    destruct (ctor_check c (h_type h) (l1 ++ l2)); cbn; intro H; inversion H; subst; proj; lia.
+  - intros d k n s t W D1 D2. cbn [read_children].
+    destruct (n <=? 0). { cbn. intro H; inversion H; subst. auto. }
+    pose proof (IHg (d + 1) s) as G.
+    pose proof (proj1 (main_spec c f total) (d + 1) s W) as P.
+    destruct (read_geom c f (d + 1) s) as [[g z] s1|e t1|] eqn:E1; [| |cbn; discriminate].
+    2:{ intro H. apply (G t); auto; lia. }
+    assert (D1' : dmax (stt s1) <= m + 1). { apply (G (stt s1)); auto; lia. }
+    destruct P as (W1 & _).
+    destruct (negb (fits k g)). { cbn. intro H; inversion H; subst. auto. }
+    pose proof (IHc d k (n - 1) s1) as C.
+    destruct (read_children c f d k (n - 1) s1) as [[l zs] s2|e t2|] eqn:E2; [| |cbn; discriminate].
+    + cbn. intro H; inversion H; subst. apply (C (stt s2)); auto.
+    + intro H. apply (C t); auto.
+Qed.
+
+(* ------------------------------------------------------------------ top level *)
+Section Top.
+Variable c : cfg.
+Variable input : list Z.
+Hypothesis BI : bytes_ok input.
+Let L := Z.of_nat (length input).
+
+Lemma top_post : geom_post c L (S (length input)) 1 (init input) (wkb_read c input).
+Proof. unfold wkb_read. apply main_spec. apply wf_init. exact BI. Qed.
+
+(* read_total / fuel_sufficient: the reader is a total function, the fuel |input|+1 is never exhausted *)
+Theorem fuel_sufficient : wkb_read c input <> Fuel.
+Proof.
+  pose proof top_post as P. intro E. rewrite E in P. unfold geom_post, init in P. cbn [rest] in P. lia.
+Qed.
+
+(* read_in_bounds: no read outside the input, and the position never passes the end *)
+Theorem read_in_bounds : (forall t, wkb_read c input <> Err EOob t) /\
+  (forall t, final_stats (wkb_read c input) = Some t -> 0 <= pos t <= L).
+Proof.
+  pose proof top_post as P. split.
+  - intros t E. rewrite E in P. destruct P as ((NE & _) & _). congruence.
+  - intros t H. destruct (wkb_read c input) as [[g z] s|e t'|]; cbn in H; inversion H; subst.
+    + destruct P as ((A & B & C & D) & _). fold L in B. lia.
+    + destruct P as (_ & A & P & _). unfold acct, init in A. cbn in A. lia.
+Qed.
+
+(* the accounting at the end of any run *)
+Theorem accounting : forall t, final_stats (wkb_read c input) = Some t ->
+  16 * coords t <= L /\ 4 * slots t <= L * dmax t /\ 5 * nodes t <= L /\ quad t <= 2 * nodes t * dmax t /\
+  1 <= dmax t /\ 9 * (dmax t - 1) <= L /\ 0 <= coords t /\ 0 <= slots t /\ 0 <= nodes t /\ 0 <= quad t.
+Proof.
+  intros t H. pose proof top_post as P.
+  assert (X : exists cc, 0 <= cc <= L /\ acct stats0 t cc 1 /\ 1 <= dmax t).
+  { destruct (wkb_read c input) as [[g z] s|e t'|]; cbn in H; inversion H; subst.
+    - destruct P as (W & K & A & _ & D). exists (pos (stt s) - 0). destruct W as (W1 & W2 & W3 & _). fold L in W2.
+      change (pos (stt (init input))) with 0 in *. change (stt (init input)) with stats0 in A.
+      split; [lia|]. split; auto.
+    - destruct P as (_ & A & _ & D). exists L. split; [unfold L; lia|]. split; auto. }
+  destruct X as (cc & Hc & A & D). unfold acct in A. cbn [pos coords slots nodes dmax quad stats0] in A.
+  destruct A as (A1 & A2 & A3 & A4 & A5 & A6 & A7 & A8 & A9 & A10 & A11).
+  replace (dmax t - 1 + 1) with (dmax t) in * by lia.
+  assert (cc * dmax t <= L * dmax t) by (apply Z.mul_le_mono_nonneg_r; lia).
+  repeat split; try lia.
+Qed.
+
+(* with the nesting limit m of the candidate fix the depth is bounded by m + 1, hence slots and quad are linear in |input| *)
+Theorem depth_limited : forall m t, max_depth c = Some m -> 0 <= m -> final_stats (wkb_read c input) = Some t ->
+  dmax t <= m + 1 /\ 4 * slots t <= L * (m + 1) /\ 5 * quad t <= 2 * L * (m + 1).
+Proof.
+  intros m t Hm M0 H.
+  assert (D : dmax t <= m + 1).
+  { apply (proj1 (dlim_spec c m Hm M0 (S (length input)) L) 1 (init input) t); auto; try lia.
+    apply wf_init; auto. cbn. lia. }
+  destruct (accounting t H) as (A1 & A2 & A3 & A4 & A5 & A6 & A7 & A8 & A9 & A10).
+  split; auto. split.
+  - assert (L * dmax t <= L * (m + 1)) by (apply Z.mul_le_mono_nonneg_l; unfold L; lia). lia.
+  - assert (2 * nodes t * dmax t <= 2 * nodes t * (m + 1)) by (apply Z.mul_le_mono_nonneg_l; lia). nia.
+Qed.
+
+(* ctor_guards: with the compound-curve guard no input reaches undefined behaviour *)
+Theorem ctor_guards : cc_guard c = true -> forall t, wkb_read c input <> Err EUB t.
+Proof.
+  intros G t E. pose proof top_post as P. rewrite E in P. destruct P as ((_ & NU) & _). apply (NU G). reflexivity.
+Qed.
+End Top.
+
+(* a decidable form of bytes_ok for concrete witnesses *)
+Definition bytes_okb (l : list Z) : bool := forallb (fun b => (0 <=? b) && (b <? 256)) l.
+Lemma bytes_okb_ok : forall l, bytes_okb l = true -> bytes_ok l.
+Proof.
+  unfold bytes_okb, bytes_ok. intros l H. apply Forall_forall. intros x Hx.
+  rewrite forallb_forall in H. specialize (H x Hx). unfold is_byte. lia.
 Qed.
